@@ -90,6 +90,41 @@ def _has_quant(e):
     return False
 
 
+_HEAVY = {}
+
+
+def _heavy_len(f):
+    """a formula that bounds a string length by a large constant (len(s) <= 20000 ...).  z3's sequence solver
+    needs seconds (and overruns its timeout) to build *models* for such constraints, while refutations are
+    immediate.  Feasibility pre-checks therefore leave these formulas out (sound: dropping a constraint can only
+    make more branches look feasible); proof obligations always use the full path condition."""
+    i = f.get_id()
+    r = _HEAVY.get(i)
+    if r is not None:
+        return r
+    has_len = big = False
+    seen = set()
+    st = [f]
+    while st and not (has_len and big):
+        x = st.pop()
+        if x.get_id() in seen:
+            continue
+        seen.add(x.get_id())
+        if z3.is_quantifier(x):
+            st.append(x.body())
+        elif z3.is_app(x):
+            if x.decl().kind() == z3.Z3_OP_SEQ_LENGTH:
+                has_len = True
+            elif z3.is_int_value(x) and abs(x.as_long()) > 64:
+                big = True
+            st.extend(x.children())
+    r = has_len and big
+    if len(_HEAVY) > 200000:
+        _HEAVY.clear()
+    _HEAVY[i] = r
+    return r
+
+
 def _split_conj(phi, depth=0):
     if depth > 6:
         return [phi]
@@ -190,7 +225,7 @@ class Path:
         if z3.is_true(phi):
             return
         self.pc.append(phi)
-        if not _has_quant(phi):
+        if not _has_quant(phi) and not _heavy_len(phi):
             self.qf.add(phi)
 
     def _check(self, extra):
@@ -246,6 +281,8 @@ class Path:
     def _feasible_nocache(self, c):
         t0 = time.time()
         try:
+            if _heavy_len(c):
+                return True
             if not _has_quant(c):
                 self.qf.push()
                 self.qf.add(c)
@@ -256,7 +293,8 @@ class Path:
             s = z3.Solver()
             s.set("timeout", self.ver.feas_timeout_ms)
             for f in self.pc:
-                s.add(f)
+                if not _heavy_len(f):
+                    s.add(f)
             s.add(c)
             return s.check() != z3.unsat
         finally:
